@@ -144,6 +144,14 @@ PROPS = {
         trusted=COMMON_TRUST + ["genapi translator (Go source -> Gen/TorApi.v), re-run on every check", "runtime.NumGoroutine and alloc.Bytes as process-wide observations (cases run one at a time)"],
         assumptions=["a handler that takes an event answers it"],
     ),
+    "C18": dict(
+        level_text="Model/Privacy.v: a torrent's switches (DHT none/passive/normal, trackers, web seeds, proxied or not) and the contacts each event produces (Torrent.announce, the SetConf handler, the slow ticker's tracker announce, the web-seed branch of periodicRequest, the start of peer.Run, tor.Server). Theorem c18_every_contact_permitted: over every sequence of configuration changes, announce requests, ticks, fetch attempts, new peers and incoming handshakes, from any initial configuration, every contact is permitted by the switches in force when it is made (DHT only when the mode is not none, a port only in normal mode without proxy; trackers only while on, zero ports when proxied; web seeds only while on; a proxied torrent reveals neither version nor port nor DHT port and accepts nobody). Tie: 32 (quick) torrents run their real main loops side by side for 44 s (two ticks of the 20 s ticker), each with its own initial switches and 2-3 changes on the way, a recording tracker.Tracker, a GetRight web seed on a local HTTP server, a DHT-and-extension-capable scripted peer, an incoming handshake through tor.Server, wanted data nobody has, explicit Announce calls; the contacts that follow AddTorrent, SetConf, Announce, the new peer and the incoming handshake are compared with the model, and every contact observed at any time (DHT hook, tracker, web seed) is judged against the configurations in force in the 1.5 s before it.",
+        level_note="The 28-minute DHT refresh and multi-tier tracker selection are not exercised; the IPv6 address in the extended handshake cannot be observed here (no IPv6 route in the sandbox). A contact already under way when a switch is turned off is tolerated for 1.5 s.",
+        harness="swarm", args=["-prop", "C18"], check_module="PrivacyCheck",
+        n_quick=32, n_thorough=160, timeout=600,
+        trusted=COMMON_TRUST + ["verif hook tor/hook_verif.go (observation point before dht.Announce; one call in tor.go, a no-op without the tag)", "injected tracker.Tracker, local HTTP web seed, scripted peer, pipe end claiming a public TCP address"],
+        assumptions=["wall-clock timestamps of the harness order contacts and switch changes correctly up to the 1.5 s grace"],
+    ),
     "C19": dict(
         level_text="Model/HttpUI.v specifies the Host check in front of every handler and the escaping functions applied where attacker-controlled strings enter pages and playlists. Theorems over all strings: a host that is neither localhost nor an IP literal is refused, and DNS names are never IP literals (c19_local_only, c19_dns_names_are_not_ip_literals); HTML-escaped text contains no tag/attribute delimiter (c19_html_escaped); path-escaped text contains no delimiter, whitespace or control byte (c19_url_escaped); playlist titles contain no line break (c19_playlist_lines). Tie: 24 Host headers x 15 (route, method) pairs on the real mux with a running torrent (status and state change), and 100 torrents built from hostile strings (name, path, tracker URL and error text via an injected tracker, web-seed URL, peer version) rendered on the root, directory, peers and playlist pages: raw occurrences of a hostile string are violations; html.EscapeString/url.PathEscape compared with the model on every string.",
         level_note="That every handler calls checkLocal first and that every output site applies an escaping function is established by the sweep (every route x method x host; every attacker-controlled field on every page), not by a theorem over the page renderers; net.SplitHostPort/ParseIP are specified on the generated shapes. The Host header echoed inside the registerProtocolHandler script is not covered (only IP literals/localhost reach it).",
